@@ -46,13 +46,19 @@ Definition run (inp : list N) : list N :=
       match to_exec no_float sel d with Some x => 0 :: enc_tree (of_doc x) | None => [1] end))
   | 2 :: r0 => with_name r0 (fun sel r => with_input r (fun vs d =>
       [silent (rules13 vs d);
-       silent (opt_concat [Some (rule_unique_fragment_names d); Some (rule_unique_variable_names d);
+       silent (opt_concat [Some (rule_known_fragment_names d); rule_no_fragment_cycles d;
+                           Some (rule_unique_fragment_names d); Some (rule_unique_variable_names d);
                            rule_no_undefined_variables d; Some (rule_unique_input_field_names d);
                            Some (rule_unique_argument_names d)]);
        match to_exec no_float sel d with
        | Some x => 1 | None => 0 end;
        match to_exec no_float sel d with
        | Some x => b2n (well_typed (vs_s vs) x) | None => 2 end;
-       b2n (schema_ok (vs_s vs))]))
+       b2n (schema_ok (vs_s vs));
+       (* VariablesInAllowedPosition errors that the specification's location-default rule does not have *)
+       match rule_variables_in_allowed_position vs d, rule_varpos_gen true vs d with
+       | Some a, Some b => N.of_nat (length a - length b)
+       | _, _ => 0
+       end]))
   | _ => [999999]
   end.
